@@ -54,7 +54,19 @@ fn parse_syls(s: &str) -> Vec<u16> {
 }
 
 fn to_syllables(s: &[u16]) -> Vec<Syllable> {
-    s.iter().map(|&v| Syllable::try_from(v).expect("non-zero syllable")).collect()
+    // The library takes every non-zero u16 as a syllable code.  Should a tree under test refuse some codes, the
+    // generators go on with the nearest composable code (fields clamped to their alphabets) instead of dying: the
+    // entry sets then differ from the model's, which the correspondence reports, and the corruption campaigns -
+    // which work on bytes - still run.
+    s.iter()
+        .map(|&v| {
+            Syllable::try_from(v).unwrap_or_else(|_| {
+                let (i, m, r, t) = (((v >> 9) & 0x3f).min(21), (v >> 7) & 3, ((v >> 3) & 0xf).min(13), (v & 7).min(5));
+                let c = (i << 9) | (m << 7) | (r << 3) | t;
+                Syllable::try_from(if c == 0 { 1 << 9 } else { c }).expect("a composable syllable code")
+            })
+        })
+        .collect()
 }
 
 /// phrase as (utf8 bytes, freq, last_used)
@@ -1272,6 +1284,30 @@ fn check_case(case: &Case) -> Vec<(String, String)> {
                     let got: Vec<P> = t.lookup_all_phrases(&to_syllables(&pk), LookupStrategy::FuzzyPartialPrefix).iter().map(phrase_to_p).collect();
                     if got != case.spec.fuzzy(&pk) {
                         errs.push((format!("fuzzy-differs-{}", which), format!("query {} got {} want {}", syls_repr(&pk), got.len(), case.spec.fuzzy(&pk).len())));
+                        break;
+                    }
+                    // a lookup limited to the first n results returns the first n of the full result, exact and fuzzy
+                    // (also one-syllable fuzzy queries: inner nodes without phrases of their own lie among the matches)
+                    let mut bad = None;
+                    for (q, strat, full) in [
+                        (k.clone(), LookupStrategy::Standard, case.spec.lookup(k)),
+                        (pk.clone(), LookupStrategy::FuzzyPartialPrefix, case.spec.fuzzy(&pk)),
+                        (pk[..1.min(pk.len())].to_vec(), LookupStrategy::FuzzyPartialPrefix, case.spec.fuzzy(&pk[..1.min(pk.len())])),
+                    ] {
+                        for n in [1usize, 2, 3, 7] {
+                            let got: Vec<P> = t.lookup_first_n_phrases(&to_syllables(&q), n, strat).iter().map(phrase_to_p).collect();
+                            let want: Vec<P> = full.iter().take(n).cloned().collect();
+                            if got != want {
+                                bad = Some(format!("first {} of {} ({:?}): got {:?} want {:?}", n, syls_repr(&q), strat, got, want));
+                                break;
+                            }
+                        }
+                        if bad.is_some() {
+                            break;
+                        }
+                    }
+                    if let Some(d) = bad {
+                        errs.push((format!("first-n-not-a-prefix-{}", which), d));
                         break;
                     }
                 }
